@@ -553,3 +553,102 @@ class SortedPerm:
         n = zi(self.length)
         j1z, j2z = zi(idx_term(j1)), zi(idx_term(j2))
         return z3.Implies(z3.And(j1z >= 0, j1z <= j2z, j2z < n), zb(xcmp(">=" if rev else "<=", a, b)))
+
+
+class SymObjDict:
+    """an insertion-ordered dict with a symbolic number n of entries: entry i has key key_of(i) (an FStr token, distinct for
+    distinct i) and a record rec_of(i).  Iteration needs a loop summary / invariant (symbolic length); look-up by one of its own
+    key tokens returns the entry's record."""
+
+    def __init__(self, length, key_of, rec_of):
+        self.length = length
+        self._key_of, self._rec_of = key_of, rec_of
+        self._keys, self._recs, self._by_key = {}, {}, {}
+
+    def key_at(self, i):
+        i = idx_term(i)
+        it = z3.IntVal(i) if isinstance(i, int) else i
+        k = tid(it)
+        if k not in self._keys:
+            key = self._key_of(it)
+            self._keys[k] = key
+            self._by_key[id(key)] = it
+        return self._keys[k]
+
+    def rec_at(self, i):
+        i = idx_term(i)
+        it = z3.IntVal(i) if isinstance(i, int) else i
+        k = tid(it)
+        if k not in self._recs:
+            self._recs[k] = self._rec_of(it)
+        return self._recs[k]
+
+    def fresh_rec(self, i):
+        """a new copy of entry i's record in its state before any summarised loop touched it"""
+        return self._rec_of(zi(idx_term(i)))
+
+    def index_of_key(self, key):
+        return self._by_key.get(id(key))
+
+    def set_records(self, rec_of):
+        """the records after a summarised loop (functional update of the whole collection)"""
+        self._rec_of = rec_of
+        self._recs = {}
+
+    def py_len(self, I):
+        return mkint(self.length)
+
+    def truth_term(self):
+        return icmp(">", self.length, 0)
+
+    def py_getitem(self, I, key):
+        i = self.index_of_key(key)
+        if i is None:
+            raise Unsupported("look-up in a symbolic-size dict by a key that is not one of its own key tokens")
+        return self.rec_at(i)
+
+    def py_contains(self, I, key):
+        return self.index_of_key(key) is not None
+
+    def py_getattr(self, I, name):
+        from .interp import Builtin
+        if name in ("items", "values", "keys"):
+            return Builtin(name, lambda I_, a, k: SymDictView(self, name))
+        raise Unsupported("method of a symbolic-size dict: " + name)
+
+
+class SymDictView:
+    """d.items() / d.values() / d.keys() of a SymObjDict"""
+
+    def __init__(self, d, kind):
+        self.d, self.kind = d, kind
+        self.length = d.length
+
+    def at(self, i):
+        if self.kind == "items":
+            return (self.d.key_at(i), self.d.rec_at(i))
+        return self.d.rec_at(i) if self.kind == "values" else self.d.key_at(i)
+
+    def py_len(self, I):
+        return mkint(self.length)
+
+
+class LazyEntries:
+    """a dict filled by a summarised loop with one entry per entry of a SymObjDict: value_of(i) gives entry i's value"""
+
+    def __init__(self, base, value_of, before=None):
+        self.base, self.value_of, self.before = base, value_of, before or {}
+
+    def py_getitem(self, I, key):
+        i = self.base.index_of_key(key)
+        if i is None:
+            if key in self.before:
+                return self.before[key]
+            raise PyRaise("KeyError", repr(key))
+        return self.value_of(i)
+
+    def py_len(self, I):
+        return mkint(iadd(self.base.length, len(self.before)))
+
+    def py_contains(self, I, key):
+        return self.base.index_of_key(key) is not None or key in self.before
